@@ -2,7 +2,7 @@
     strfmt subset used by -o format=, and the table layout of PrettyPrinter
     (src/printer.rs). *)
 From Coq Require Import List ZArith NArith Bool Floats.SpecFloat.
-From AG Require Import Str F64 Value Json Expr Ops Pipeline.
+From AG Require Import Str F64 Value Json Expr Ops Pipeline DatePaths.
 From AG Require Generated.
 Import ListNotations.
 Open Scope string_scope.
@@ -82,7 +82,7 @@ Fixpoint render (v : value) : res str :=
   | VNone => Ok (lit "None")
   | VFloat f => Ok (fmt_fixed floating_points f)
   | VBool b => Ok (lit (if b then "true" else "false"))
-  | VDate _ => Unm                     (* chrono's Display of DateTime<Utc> *)
+  | VDate ns => match date_form "ValueDisplay" with Some f => Ok (f ns) | None => Unm end   (* chrono's Display of DateTime<Utc> (DateFmt.v) *)
   | VDur ns => Ok (dur_display ns)
   | VObj kvs =>
       do items <- (fix go (l : list (str * value)) : res (list str) :=
